@@ -127,6 +127,10 @@ def check(ctx: Ctx) -> None:
     from .c19 import polling_break_double_check
     polling_break_double_check(ctx, "C15.R14")
     delete_filters_every_manifest(ctx)
+    from .common import numbers_not_truth_tested
+    numbers_not_truth_tested(ctx, "C15.R16", ("snapshot_manager", "transaction", "file_manager"),
+                             "sequence number 0, schema id 0, cutoff 0, retention bounds")
+    groupby_is_over_sorted_input(ctx, "C15.R17")
 
 
 def delete_filters_every_manifest(ctx: Ctx, rid: str = "C15.R15") -> None:
@@ -280,25 +284,90 @@ def r1(ctx: Ctx) -> None:
     def _is_cur(x: ast.AST) -> bool:
         return (isinstance(x, ast.Attribute) and x.attr == "current_snapshot_id") or (isinstance(x, ast.Name) and x.id in cur_names)
 
-    def _atom_current(x: ast.AST) -> Optional[bool]:
-        # scenario: the element under test IS the current snapshot
-        if isinstance(x, ast.Call) and isinstance(x.func, ast.Name) and x.func.id in mut.nested:
-            # a local predicate function: its (single) return expression decides
-            rs = [r.value for r in ast.walk(mut.nested[x.func.id].node) if isinstance(r, ast.Return) and r.value is not None]
-            if len(rs) == 1:
-                return eval3(rs[0], _atom_current)
-            return None
-        if isinstance(x, ast.Compare) and len(x.ops) == 1 and isinstance(x.ops[0], (ast.Eq, ast.NotEq)):
-            a, b = x.left, x.comparators[0]
-            if (_is_cur(a) and isinstance(b, ast.Attribute) and b.attr == "snapshot_id") or \
-                    (_is_cur(b) and isinstance(a, ast.Attribute) and a.attr == "snapshot_id"):
-                return isinstance(x.ops[0], ast.Eq)
+    def _comp_of(name: str):  # type: ignore[no-untyped-def]
+        """a set / list / generator comprehension over the snapshots bound once to `name` in the mutator, collecting ids"""
+        defs = [n.value for n in ast.walk(mut.node) if isinstance(n, ast.Assign) and len(n.targets) == 1
+                and isinstance(n.targets[0], ast.Name) and n.targets[0].id == name]
+        if len(defs) == 1 and isinstance(defs[0], (ast.SetComp, ast.ListComp, ast.GeneratorExp)) and len(defs[0].generators) == 1 \
+                and "snapshots" in norm_text(defs[0].generators[0].iter) and isinstance(defs[0].elt, ast.Attribute) and defs[0].elt.attr == "snapshot_id":
+            return defs[0]
+        if len(defs) == 1 and isinstance(defs[0], ast.Call) and isinstance(defs[0].func, ast.Name) and defs[0].func.id in ("set", "frozenset", "list", "tuple") \
+                and len(defs[0].args) == 1 and isinstance(defs[0].args[0], (ast.SetComp, ast.ListComp, ast.GeneratorExp)):
+            c = defs[0].args[0]
+            if len(c.generators) == 1 and "snapshots" in norm_text(c.generators[0].iter) and isinstance(c.elt, ast.Attribute) and c.elt.attr == "snapshot_id":
+                return c
         return None
 
-    ok = bool(comps) and all(
-        c.generators[0].ifs and all(eval3(i, _atom_current) is True for i in c.generators[0].ifs) for c in comps)
+    cut_names = {p_.name for p_ in mut.params if "cutoff" in p_.name or "older" in p_.name} | \
+                {x.id for x in ast.walk(mut.node) if isinstance(x, ast.Name) and ("cutoff" in x.id or "older_than" in x.id)}
+
+    def _mk_atom(is_current: bool, ts: Optional[str]):  # type: ignore[no-untyped-def]
+        def _atom(x: ast.AST) -> Optional[bool]:
+            # scenario: the element under test is / is not the current snapshot; its timestamp is below / at / above the cutoff
+            if isinstance(x, ast.Call) and isinstance(x.func, ast.Name) and x.func.id in mut.nested:
+                # a local predicate function: its (single) return expression decides
+                rs = [r.value for r in ast.walk(mut.nested[x.func.id].node) if isinstance(r, ast.Return) and r.value is not None]
+                if len(rs) == 1:
+                    return eval3(rs[0], _atom)
+                return None
+            if isinstance(x, ast.Compare) and len(x.ops) == 1 and isinstance(x.ops[0], (ast.Eq, ast.NotEq)):
+                a, b = x.left, x.comparators[0]
+                if (_is_cur(a) and isinstance(b, ast.Attribute) and b.attr == "snapshot_id") or \
+                        (_is_cur(b) and isinstance(a, ast.Attribute) and a.attr == "snapshot_id"):
+                    return isinstance(x.ops[0], ast.Eq) == is_current
+            if isinstance(x, ast.Compare) and len(x.ops) == 1 and isinstance(x.ops[0], (ast.In, ast.NotIn)) \
+                    and isinstance(x.left, ast.Attribute) and x.left.attr == "snapshot_id" and isinstance(x.comparators[0], ast.Name):
+                # `s.snapshot_id in expired_ids` with expired_ids = {s.snapshot_id for s in snapshots if <cond>}: true iff <cond> holds for s
+                c = _comp_of(x.comparators[0].id)
+                if c is not None:
+                    v = True
+                    for i in c.generators[0].ifs:
+                        r_ = eval3(i, _atom)
+                        if r_ is None:
+                            return None
+                        v = v and r_
+                    return v if isinstance(x.ops[0], ast.In) else (not v)
+            if ts is not None and isinstance(x, ast.Compare) and len(x.ops) == 1 and isinstance(x.ops[0], (ast.Lt, ast.LtE, ast.Gt, ast.GtE)):
+                a, b = x.left, x.comparators[0]
+                a_ts = isinstance(a, ast.Attribute) and a.attr == "timestamp_ms"
+                b_ts = isinstance(b, ast.Attribute) and b.attr == "timestamp_ms"
+                a_cut = isinstance(a, ast.Name) and a.id in cut_names
+                b_cut = isinstance(b, ast.Name) and b.id in cut_names
+                if (a_ts and b_cut) or (a_cut and b_ts):
+                    rel = ts if a_ts else {"lt": "gt", "gt": "lt", "eq": "eq"}[ts]  # relation of LEFT to RIGHT
+                    op = x.ops[0]
+                    return {"lt": isinstance(op, (ast.Lt, ast.LtE)), "eq": isinstance(op, (ast.LtE, ast.GtE)), "gt": isinstance(op, (ast.Gt, ast.GtE))}[rel]
+            return None
+        return _atom
+
+    def _kept(is_current: bool, ts: Optional[str]) -> Optional[bool]:
+        res = []
+        for c in comps:
+            if isinstance(c.elt, ast.Attribute):
+                continue  # an id-collecting comprehension (judged where it is tested)
+            if not c.generators[0].ifs:
+                return None
+            v = True
+            for i in c.generators[0].ifs:
+                r_ = eval3(i, _mk_atom(is_current, ts))
+                if r_ is None:
+                    return None
+                v = v and r_
+            res.append(v)
+        return None if not res else all(res)
+
+    ok = _kept(True, None) is True
     ctx.ob("C15.R1", mut, "expire: keep-predicate has the `== current_snapshot_id` disjunct", None, ok,
            "the current snapshot is never expired, whatever its age", text="expire-current")
+    at_cut, above, below = _kept(False, "eq"), _kept(False, "gt"), _kept(False, "lt")
+    if at_cut is None or above is None:
+        ctx.ob("C15.R1", mut, "expire removes only snapshots strictly older than the cutoff", None, True,
+               "keep-predicate not evaluable under the timestamp scenarios (not judged)", nontrivial=False, text="expire-boundary")
+    else:
+        ctx.ob("C15.R1", mut, "expire removes only snapshots strictly older than the cutoff", None, at_cut is True and above is True,
+               f"non-current snapshot kept when its timestamp is AT the cutoff: {at_cut}; above it: {above}; below it: {below} - "
+               "`expire_snapshots(older_than_ms=S.timestamp_ms)` keeps S: a retained snapshot stays resolvable by id and by time",
+               text="expire-boundary")
     ret = sites["retention"]
     assert ret is not None
     g = ctx.cfg(ret)
@@ -362,6 +431,10 @@ def r1(ctx: Ctx) -> None:
             return isinstance(x.ops[0], ast.IsNot)
         if isinstance(x, ast.Name) and x.id in found_names:
             return True
+        if isinstance(x, ast.Compare) and len(x.ops) == 1 and isinstance(x.ops[0], (ast.In, ast.NotIn)) and isinstance(x.left, ast.Attribute) \
+                and x.left.attr == "snapshot_id" and isinstance(x.left.value, ast.Name) and x.left.value.id in found_names \
+                and isinstance(x.comparators[0], ast.Name) and x.comparators[0].id in idsets:
+            return isinstance(x.ops[0], ast.NotIn)  # `current.snapshot_id not in kept_ids`: the found object carries the current id
         if isinstance(x, ast.Call) and dotted(x.func) == "any" and x.args and isinstance(x.args[0], (ast.GeneratorExp, ast.ListComp)):
             el = x.args[0].elt
             if isinstance(el, ast.Compare) and len(el.ops) == 1 and isinstance(el.ops[0], ast.Eq) and (
@@ -640,9 +713,11 @@ def r6(ctx: Ctx) -> None:
     eo = ctx.slicer(f).origins(ep[0].ast.value, ep[0].id) if ep else {"names": set(), "params": set()}  # type: ignore[union-attr]
     ok = bool(ep) and (prevp in eo["names"]) and any(n.endswith("metadata_path") for n in eo["names"])
     ctx.ob("C15.R6", f, "entry path = metadata dir + superseded file", ep[0] if ep else None, ok, "")
-    logv = {nm for n in ast.walk(f.node) if isinstance(n, ast.Assign) and any(isinstance(t, ast.Attribute) and t.attr == "metadata_log" for t in n.targets)
+    from .common import walk_all
+    everything = walk_all(ctx, f)  # incl. helpers analysed in place (`_trim_oldest(log, max_entries)`)
+    logv = {nm for n in everything if isinstance(n, ast.Assign) and any(isinstance(t, ast.Attribute) and t.attr == "metadata_log" for t in n.targets)
             for nm in names_in(n.value)}
-    slices = [n for n in ast.walk(f.node) if isinstance(n, ast.Subscript) and isinstance(n.slice, ast.Slice) and norm_text(n.value) in logv]
+    slices = [n for n in everything if isinstance(n, ast.Subscript) and isinstance(n.slice, ast.Slice) and norm_text(n.value) in logv]
 
     def _tail(sx: ast.Subscript) -> Optional[ast.AST]:
         """the count kept by a suffix slice: L[-n:] -> n ; L[k:] with k = len(L) - n -> n ; anything else is not a 'newest n' trim"""
@@ -676,7 +751,7 @@ def r6(ctx: Ctx) -> None:
     pn = [p.name for p in f.params if p.name != "self"]
     newp, basep = (pn[0], pn[1]) if len(pn) >= 2 else (pn[0], None)
     fsl = ctx.slicer(f)
-    for sn in [n for n in g.nodes if n.kind == "stmt" and n.ast is not None and any(x in slices for x in ast.walk(n.ast))]:
+    for sn in [n for n in g.nodes if n.kind in ("stmt", "return") and n.ast is not None and any(x in slices for x in ast.walk(n.ast))]:
         for sx in [x for x in ast.walk(sn.ast) if x in slices]:
             bound = tails.get(id(sx)) or (sx.slice.lower or sx.slice.upper)  # type: ignore[union-attr]
             if bound is None:
@@ -806,3 +881,40 @@ def r7(ctx: Ctx) -> None:
            "; ".join(problems) if problems else "both the manifest entry and the caller-supplied name are stripped of leading "
            "slashes before the membership test" if both else "no normalisation at all",
            text="delete-filter")
+
+
+def groupby_is_over_sorted_input(ctx: Ctx, rid: str) -> None:
+    ctx.rule(rid, "every queued operation takes part in the commit: itertools.groupby merges only ADJACENT equal keys, so a "
+             "partition built with it (a dict keyed by kind) silently drops every earlier run of a kind unless its input is "
+             "sorted by the very same key - `delete(A); append(D); delete(B)` would commit without deleting A", 1)
+    n = 0
+    for f in sorted(ctx.prog.functions.values(), key=lambda x: x.qname):
+        if isinstance(f.node, ast.Lambda):
+            continue
+        for x in ast.walk(f.node):
+            if not (isinstance(x, ast.Call) and (dotted(x.func) or "").split(".")[-1] == "groupby" and x.args):
+                continue
+            if f.parent is not None and any(x is y for y in ast.walk(f.parent.node)) and f.name != getattr(f.node, "name", ""):
+                continue
+            n += 1
+            key = x.args[1] if len(x.args) > 1 else kwarg(x, "key")
+
+            def _resolve(e: Optional[ast.AST]) -> Optional[ast.AST]:
+                if isinstance(e, ast.Name):
+                    defs = [a.value for a in ast.walk(f.node) if isinstance(a, ast.Assign) and len(a.targets) == 1
+                            and isinstance(a.targets[0], ast.Name) and a.targets[0].id == e.id]
+                    if len(defs) == 1:
+                        return defs[0]
+                return e
+            src = _resolve(x.args[0])
+            ok = False
+            if isinstance(src, ast.Call) and (dotted(src.func) or "") == "sorted" and src.args:
+                skey = kwarg(src, "key")
+                ok = (key is None and skey is None) or (key is not None and skey is not None
+                                                         and norm_text(_resolve(key)) == norm_text(_resolve(skey)))
+            ctx.ob(rid, f, "groupby input is sorted by the grouping key", None, ok,
+                   f"`{norm_text(x)[:80]}`" + ("" if ok else ": the input is not `sorted(.., key=<the same key>)` - non-adjacent runs of one "
+                                               "key overwrite each other"), text=norm_text(x)[:60], line=x.lineno)
+    if n == 0:
+        ctx.ob(rid, ctx.fn("transaction.Transaction.commit"), "no itertools.groupby in the package", None, True,
+               "nothing to judge", nontrivial=False)
